@@ -26,8 +26,15 @@ pub fn ts_max_ns() -> i128 {
 pub fn date_ymd(d: Date) -> (i64, i64, i64) {
     (d.year() as i64, d.month() as i64, d.day() as i64)
 }
+/// Epoch day of a jiff date, read from its public fields. A `Date` whose
+/// fields do not name a day of the Gregorian calendar (e.g. 2023-02-29, which
+/// a defective operation can fabricate) maps to a poison value far outside the
+/// supported range, so that it can never compare equal to a model result.
 pub fn date_epoch_day(d: Date) -> i64 {
     let (y, m, dd) = date_ymd(d);
+    if !cal::valid_date(y, m, dd) {
+        return -1_000_000_000 - ((y + 40_000) * 512 + m * 32 + dd);
+    }
     cal::days_from_civil(y, m, dd)
 }
 pub fn date_from_epoch_day(n: i64) -> Option<Date> {
